@@ -446,9 +446,13 @@ def strip(case):
 def run(rep):
     tier, rng = rep.tier, Rng(rep.seed)
     broken = []
-    po = common.proof_obligations(PROP_FILES)
+    # translator: View/ReplicaCommit/CommitQC/ReplicaTimeout/TimeoutQC::verify and the decisions of CommitQC/TimeoutQC::add are
+    # regenerated from the source; Properties/C04Gen.v proves them equal to Model/Msgs.v
+    import rust2coq
+    translator, gen_files = rust2coq.step(["qc_verify"], ["theories/Properties/C04Gen.v"], broken)
+    po = common.proof_obligations(PROP_FILES + gen_files)
     if not po["ok"]:
-        broken.append("Coq obligations of Properties/C04.v, C04Tqc.v: " + (po["log_tail"] or str(po["hygiene_problems"] or po["bad_axioms"])))
+        broken.append("Coq obligations of Properties/C04.v, C04Tqc.v" + (", C04Gen.v" if gen_files else "") + ": " + (po["log_tail"] or str(po["hygiene_problems"] or po["bad_axioms"])))
     ok, out = common.cargo_build(["qc"], "dev")
     if not ok:
         raise common.MachineryError("cargo build failed: " + out[-2000:])
@@ -489,8 +493,8 @@ def run(rep):
     rep.cov.update({
         "obligations": po["obligations"] + 1, "discharged": po["discharged"] + (0 if mm else 1),
         "checker_cmd": "make -C coq theories/Properties/C04.vo theories/Properties/C04Tqc.vo + coqc on generated cases_*.v (vm_compute of Model.MsgsRun.run_op)",
-        "trusted_base": common.standard_trusted_base(["H-SIG: BLS12-381 (blst) aggregate verification accepts iff the aggregated multiset of (signer, message) equals the claimed one; proof of possession against rogue keys"]),
-        "theorems": po["theorems"], "axioms": po["axioms"],
+        "trusted_base": common.standard_trusted_base(["H-SIG: BLS12-381 (blst) aggregate verification accepts iff the aggregated multiset of (signer, message) equals the claimed one; proof of possession against rogue keys"] + translator["trusted"]),
+        "theorems": po["theorems"], "axioms": po["axioms"], "translator": translator,
         "evaluations": len(cases), "distinct_nontrivial": len(dist),
         "rule": "committees of 1-8 pool keys with unit/small/medium/2^20..2^58 weights; commit certificates for all (<=5 members) or quorum-biased signer subsets with one single-field corruption each (bitmap flip/push/pop, view number/epoch/genesis, header, aggregate: other subset, other message, duplicate, empty, non-member, wrong signer); timeout certificates with 1-3 signer groups, valid nested high QCs and one corruption each (overlap, empty group, wrong length, entry view, nested QC, high vote genesis, dropped signer, aggregate drop/dup/other, view epoch/genesis, swapped groups); final blocks; incremental assembly in random order with non-members, repeated signers, other votes, bad signatures, wrong epoch; real BLS signatures throughout; distinct = distinct case descriptions",
         "input_distribution": kinds,
